@@ -408,12 +408,16 @@ End GroupRT.
 Definition hostile_time_bytes : bytes := [2;0;0;0;14;119;145;247;4;0;0;0;0;255;200;15]%N.
 
 Lemma time_fixed_point_gap :
-  exists t b' t', time_unmarshal hostile_time_bytes = Some t /\ time_marshal t = Some b' /\
-                  time_unmarshal b' = Some t' /\ t.(t_off) = Some (-3345)%Z /\ t'.(t_off) = Some (-3089)%Z.
-Proof. vm_compute. do 3 eexists. repeat split; reflexivity. Qed.
+  let t := mk_time 62135596804 0 (Some (-3345)%Z) in
+  let b' := [2;0;0;0;14;119;145;247;4;0;0;0;0;255;201;211]%N in
+  time_unmarshal hostile_time_bytes = Some t /\ time_marshal t = Some b' /\
+  time_unmarshal b' = Some (mk_time 62135596804 0 (Some (-3089)%Z)).
+Proof. vm_compute. repeat split; reflexivity. Qed.
 
 (* an in-memory time in a zone 30 s west of Greenwich is written as version 2 / seconds byte 0xe2 and read back
    as +226 s *)
 Lemma time_roundtrip_gap :
-  exists b t', time_marshal (mk_time 63835596800 0 (Some (-30)%Z)) = Some b /\ time_unmarshal b = Some t' /\ t'.(t_off) = Some 226%Z.
-Proof. vm_compute. do 2 eexists. repeat split; reflexivity. Qed.
+  let b := [2;0;0;0;14;220;229;232;0;0;0;0;0;0;0;226]%N in
+  time_marshal (mk_time 63835596800 0 (Some (-30)%Z)) = Some b /\
+  time_unmarshal b = Some (mk_time 63835596800 0 (Some 226%Z)).
+Proof. vm_compute. split; reflexivity. Qed.
